@@ -10,7 +10,7 @@ import z3
 from .core import (Ctx, Obligation, Unsupported, Infeasible, PathEnd, PyRaise, Val, Num, Bool, Vec, NONE, zint)
 from .extract import Loader, RepoFunc
 from .interp import Interp, LoopSpec, ReturnEx
-from . import lib_py, lib_np, lib_sp, lib_sets, lib_io, lib_sp_blocks  # noqa: F401  (register library contracts)
+from . import lib_py, lib_np, lib_sp, lib_sets, lib_io, lib_sp_blocks, lib_mda  # noqa: F401  (register library contracts)
 
 Z3_TIMEOUT_MS = int(os.environ.get("PYVC_Z3_TIMEOUT_MS", "20000"))
 
@@ -186,7 +186,10 @@ def run_path(contract, func, loader, contracts_by_target, variant, prefix):
         except PyRaise as e:
             outcome = ("raise", e.cls, e.msg)
         pr.outcome = outcome[:2]
-        pr.cover = list(ctx.pc[:])      # reachability cover: the path condition when the function finished
+        # reachability cover: the path condition when the function finished, without the goals of earlier obligations
+        # (they are assumed after being recorded; if one of them is refutable that is a failed obligation, not vacuity)
+        gids = ctx.__dict__.get("goal_ids", set())
+        pr.cover = [f for f in ctx.pc if f.get_id() not in gids]
         contract.post(v, variant, v.env, outcome)
         if hasattr(contract, "mustfail") and outcome[0] == "return":
             contract.mustfail(v, variant, v.env, outcome)
